@@ -10,7 +10,8 @@ PROPS = "Props/C04.v"
 THEOREMS = ["C04_resolve_feature_is_nearest_override", "C04_has_presence_eq_runtime", "C04_is_packed_eq_runtime",
             "C04_kind_eq_runtime", "C04_cardinality_eq_runtime", "C04_is_map_eq_runtime", "C04_is_list_eq_runtime",
             "C04_has_optional_keyword_eq_runtime", "C04_source_rules_give_no_legacy_required",
-            "C04_is_closed_eq_runtime", "C04_required_numbers_eq_runtime"]
+            "C04_is_closed_eq_runtime", "C04_required_numbers_eq_runtime",
+            "C04_default_int_of_rendered", "C04_default_int_eq_runtime"]
 AXIOMS_OK = []
 TRUSTED = ["hand-written Gallina models: Model/Features.v (internal/editions.ResolveFeature, GetFeatureDefault, GetEditionDefaults, linker resolveFeature, protoutil.ResolveFeature), Model/FieldView.v (fldDescriptor.Cardinality/Kind/HasPresence/IsPacked/HasOptionalKeyword/IsMap/IsList, enumDescriptor.IsClosed, msgDescriptor.RequiredNumbers)",
            "Model/RuntimeSpec.v: transcription of protobuf-go v1.36.11 protodesc/filedesc rules (mergeEditionFeatures, initFieldsFromDescriptorProto, desc_resolve.go, filedesc.Field/Extension accessors); validated on every run against protodesc.NewFile on every generated element",
@@ -18,7 +19,8 @@ TRUSTED = ["hand-written Gallina models: Model/Features.v (internal/editions.Res
            "correspondence harness harness/cmd/views (public API only) and the program generator checks/pgenlib.py"]
 ASSUMPTIONS = ["the agreement theorems assume wf_field / wf_enum (Model/RuntimeSpec.v): supported edition; no features in proto2/proto3 files; label in {optional, required, repeated}; a map-entry message is referenced only by its own repeated non-extension message field; LEGACY_REQUIRED never in force for a repeated field, an extension, a oneof member or a map-entry member; map-entry members are plain fields; extensions are not oneof members; proto3_optional only on optional proto3 fields. The check evaluates the guard on every generated element and reports how many satisfy it; from-source programs always do",
                "protobuf-go is the reference and is not verified",
-               "attributes outside the modelled vector (names, numbers, JSON/text names, defaults, ranges, map key/value, oneof membership, services) are compared impl-vs-runtime only (direct oracle), not modelled"]
+               "default values: Default() of the integer kinds is modelled (parse of the compiled default_value text with the range of the kind) and proved equal to the number the text denotes and to what the runtime reads; defaults of the other kinds (float/double, bool, enum, string, bytes) are compared linker-vs-runtime only",
+               "attributes outside the modelled vector (names, numbers, JSON/text names, non-integer defaults, ranges, map key/value, oneof membership, services) are compared impl-vs-runtime only (direct oracle), not modelled"]
 
 FEATS = featgen.FEATURES
 # The model mirrors the repaired code (fixes C04-required-numbers, C04-is-closed-unknown, C04-map-enum-first-value);
@@ -65,6 +67,19 @@ def c_field(fin):
 def c_obs(a):
     return "(mkobs %d %d %s %s %s %s %s)" % (a["card"], a["kind"], coq_bool(a["pres"]), coq_bool(a["packed"]),
                                              coq_bool(a["optkw"]), coq_bool(a["map"]), coq_bool(a["list"]))
+
+
+INT_KINDS = {3, 4, 5, 6, 7, 13, 15, 16, 17, 18}
+
+
+def c_string(t):
+    return '"%s"%%string' % t.replace('"', '""')
+
+
+def int_of_def(d):
+    """harness rendering of an integer protoreflect.Value: <go type>:<decimal>"""
+    m = re.match(r"^u?int(32|64):(-?\d+)$", d or "")
+    return int(m.group(2)) if m else None
 
 
 def c_feat(feat):
@@ -162,10 +177,12 @@ RT_MAP_ENUM = "map enum value must have zero number for the first value"
 
 
 def run(ctx):
+    import time as _t0
+    ctx.extra["t_run_start"] = round(_t0.time() - ctx.t0, 1)
     rng = ctx.rng
     T = Tables(featgen.read_tables(REPO))
-    nprog = ctx.budget(150, 1200)
-    ninj = ctx.budget(100, 800)
+    nprog = ctx.budget(120, 1200)
+    ninj = ctx.budget(80, 800)
     ctx.rule = ("programs: hand-written corpus + the repository's editions fixtures + %d generated multi-file programs (proto2/proto3/edition 2023; "
                 "feature overrides wherever the option targets allow: file, message(json_format), field, enum; messages nested 0-4 deep; maps, groups, "
                 "oneofs, proto3 optional, packed options, extensions at file and message scope, *_UNKNOWN feature values) + %d variants re-fed as descriptor "
@@ -312,13 +329,22 @@ def run(ctx):
                         key = "%s-%s-differs" % (e["k"], k)
                     ctx.violation(key, "%s %s: %s is %r in the linker's descriptor and %r in the Go runtime's" % (e["k"], e["name"], k, lk.get(k), rt[k]), rep)
             # ---- correspondence terms
-            m = (e["k"], replay_of(c, {"element": e["name"], "in": ein, "linker": {k: lk[k] for k in lk if k in ("card", "kind", "pres", "packed", "optkw", "map", "list", "req", "closed", "feat")},
-                                       "runtime": None if rt is None else {k: rt[k] for k in rt if k in ("card", "kind", "pres", "packed", "optkw", "map", "list", "req", "closed")}}))
+            m = (e["k"], replay_of(c, {"element": e["name"], "in": ein, "linker": {k: lk[k] for k in lk if k in ("card", "kind", "pres", "packed", "optkw", "map", "list", "req", "closed", "feat", "def", "hasdef")},
+                                       "runtime": None if rt is None else {k: rt[k] for k in rt if k in ("card", "kind", "pres", "packed", "optkw", "map", "list", "req", "closed", "def", "hasdef")}}))
             is_ed = ein["ed"] not in (T.ed["EDITION_PROTO2"], T.ed["EDITION_PROTO3"])
             if e["k"] == "field":
                 t = "VFieldAll %s %s %s %s %s" % (c_field(ein), c_obs(lk), c_feat(lk["feat"]),
                                                    "None" if rt is None else "(Some %s)" % c_obs(rt), coq_bool(e["_wf"]))
-                nontriv = is_ed or ein["packed"] >= 0 or ein["oneof"] or ein["msgmap"] or ein["ext"] or ein["p3opt"] or ein["label"] == 2 or ein["parmap"]
+                nontriv = is_ed or ein["packed"] >= 0 or ein["oneof"] or ein["msgmap"] or ein["ext"] or ein["p3opt"] or ein["label"] == 2 or ein["parmap"] or ein["hasdefval"]
+                # Default() of the integer kinds against the model (the other kinds: direct oracle only)
+                if ein["label"] != 3 and lk["kind"] in INT_KINDS:
+                    lv = int_of_def(lk.get("def"))
+                    rv = None if rt is None else int_of_def(rt.get("def"))
+                    if lv is not None and (rt is None or rv is not None):
+                        dt = "VDefInt %d %s %s %s" % (lk["kind"], "(Some %s)" % c_string(ein["defval"]) if ein["hasdefval"] else "None",
+                                                      coq_Z(lv), "None" if rv is None else "(Some %s)" % coq_Z(rv))
+                        ctx.count(dt, ein["hasdefval"], "default-int")
+                        add_term(dt, ("default-int", m[1]))
                 klass = "field-%s%s" % ({998: "proto2", 999: "proto3"}.get(ein["ed"], "editions"), "-injected" if injected else "")
             elif e["k"] == "msg":
                 t = "VMsgAll %s %s %s" % (coq_list(ein["fields"], c_field), "[" + "; ".join(str(x) for x in lk["req"]) + "]",
@@ -343,7 +369,7 @@ def run(ctx):
     if stats["programs"] < 20:
         raise RuntimeError("too few accepted programs: %r" % stats)
     header = ("From Coq Require Import List NArith Bool.\nImport ListNotations.\n"
-              "From PV Require Import Common.Corr Model.FeaturesTables Model.Features Model.FieldView Model.RuntimeSpec Model.ViewsCorr.\nOpen Scope N_scope.\n")
+              "From PV Require Import Common.Corr Model.FeaturesTables Model.Features Model.FieldView Model.RuntimeSpec Model.ViewsCorr.\nFrom Coq Require Import ZArith String.\nOpen Scope N_scope.\n")
     ctx.extra["t_terms"] = round(_t.time() - ctx.t0, 1)
     ctx.extra["n_terms"] = len(terms)
     mism, err = coq_eval_mismatches("cases_C04", header, terms, CHK, shard_size=ctx.budget(700, 1500))
